@@ -69,6 +69,8 @@ def plan(tier, seed):
                 if extra != "none" and mat in ("mixed-ThreeField",):
                     continue
                 cases.append(dict(key=f"problem/{mk}/{fk}/{mat}/extra={extra}", kind="problem", mesh=mk, fk=fk, mat=mat, extra=extra, seed=seed, tier=tier, cost=15))
+            if (mk, fk) == ("quad", "ps") and mat in ("NeoHooke", "NearlyIncompressibleBody"):
+                cases.append(dict(key=f"problem/{mk}/{fk}/{mat}/extra=pressure-plain", kind="problem", mesh=mk, fk=fk, mat=mat, extra="pressure-plain", seed=seed, tier=tier, cost=15))
     return cases
 
 
@@ -276,6 +278,16 @@ def build_problem(case):
         if extra == "pressure":
             top = np.isclose(P[:, -1] if fk != "axi" else P[:, 1], (P[:, -1] if fk != "axi" else P[:, 1]).max())
             rb, fb = boundary_field(mk, mesh, fk, fld, top)
+            fb.fields[0].values = fld.fields[0].values
+            its["pressure"] = fem.SolidBodyPressure(fb, pressure=0.05)
+        elif extra == "pressure-plain":
+            # a follower load whose boundary field is of ANOTHER class than the global field (a plain two-component field on the
+            # edges of a plane-strain body): the load follows the iterate like every other item
+            from .c13 import BREGION
+
+            top = np.isclose(P[:, -1], P[:, -1].max())
+            rb = getattr(fem, BREGION[mk])(mesh, mask=top)
+            fb = fem.FieldContainer([fem.Field(rb, dim=mesh.dim)])
             fb.fields[0].values = fld.fields[0].values
             its["pressure"] = fem.SolidBodyPressure(fb, pressure=0.05)
         elif extra.startswith("item-x"):
